@@ -29,13 +29,15 @@ use std::collections::BTreeSet;
 pub struct Propagate;
 
 /// "with path and locations filled in" (rustdoc of `FieldError`): a field error is located at the
-/// name of the first field of its group; an argument-coercion error at the offending value (inside
+/// name of a field of its group (any of the merged ones, at least one); an argument-coercion error at the offending value (inside
 /// the field, after its name) or at the argument's definition in the schema, which the document's
 /// source map may not be able to render (then `locations` is empty).
 #[derive(Clone, Debug, PartialEq)]
 pub enum ErrLoc {
-    /// exactly one location: (line, column) of the field name
-    FieldName(usize, usize),
+    /// at least one location, each of them the (line, column) of the name of one of the merged
+    /// fields of the group (apollo-compiler reports the first; the reference implementation
+    /// reports all of them: both readings of "locations filled in" are accepted)
+    FieldName(Vec<(usize, usize)>),
     /// at most one location, not before the field name
     Argument(usize, usize),
     /// the field has no location (cannot happen for parsed documents)
@@ -228,10 +230,8 @@ impl<'a> Model<'a> {
 
     fn error(&mut self, path: &str, fields: &[&'a Field]) {
         self.errors.push(path.to_string());
-        self.error_locs.push(match self.name_line_column(fields[0]) {
-            Some((l, c)) => ErrLoc::FieldName(l, c),
-            None => ErrLoc::Unknown,
-        });
+        let all: Vec<(usize, usize)> = fields.iter().filter_map(|f| self.name_line_column(f)).collect();
+        self.error_locs.push(if all.is_empty() { ErrLoc::Unknown } else { ErrLoc::FieldName(all) });
     }
 
     fn name_line_column(&self, field: &Field) -> Option<(usize, usize)> {
